@@ -16,6 +16,19 @@ CHECKS = {
         design="§6 C18"),
 }
 
+CHECKS["C05"] = dict(
+    technique="Coq proof over R of the normalisation identities for every K/shape/invariant/mu on a hand-written polymorphic model; Paramcoq free theorem ties its interval run to the real model; interval-run correspondence against rates()/probabilities()",
+    text="Theorems C05_weibull / C05_normalise_any / C05_invariant / C05_constant (prop/C05.v) prove, for every category "
+         "count, shape, invariant proportion and relative rate, that probabilities sum to one, rates are non-negative, "
+         "the invariant category has rate exactly 0 and the weighted mean rate equals mu; C05_run_encloses_model is the "
+         "free theorem that the interval run of the same term encloses the real value. The model is tied to "
+         "site_model.py by correspondence on rates()/probabilities() (relative 1e-9) over random configurations, and the "
+         "property is also evaluated directly on the implementation's outputs.",
+    note="Trusted: Coq kernel; hand-written model M_site.v (validated by correspondence only); Interval library (BigZ "
+         "backend => Uint63 primitive specs) and Paramcoq output are kernel-checked; torch.pow/log rounding is modelled, "
+         "not verified. Axioms: standard-library reals (sig_forall_dec, sig_not_dec, functional_extensionality_dep), classic, Uint63 primitives.",
+    design="§6 C05")
+
 PENDING_REASON = "check not built yet in this session (build order in DESIGN.md §9); will be claimed once its theorem file and correspondence run clean"
 
 
